@@ -231,10 +231,23 @@ pub fn run_entry(entry: &str, text: &'static str) -> Obs {
             follow_up_f64(FlatEx::<f64>::from_deepex(d)?)
         })),
         "parse_val" => opaque(guarded(|| follow_up_val(exmex::parse_val::<i32, f64>(text)?))),
+        // statement lines: the text as it is, and as left / right side of an assignment, with the `=` also in last position
         "stmt" => opaque(guarded(|| {
-            exmex::statements::line_2_statement::<f64, exmex::FloatOpsFactory<f64>, exmex::NumberMatcher>(text).map(|_| ())
+            let mut last = Ok(());
+            for line in [text.to_string(), format!("{text}="), format!("v={text}"), format!("{text}={text}"), format!("{text}==")] {
+                let line: &'static str = Box::leak(line.into_boxed_str());
+                last = exmex::statements::line_2_statement::<f64, exmex::FloatOpsFactory<f64>, exmex::NumberMatcher>(line).map(|_| ());
+            }
+            last
         })),
-        "stmt_val" => opaque(guarded(|| exmex::line_2_statement_val::<i32, f64>(text).map(|_| ()))),
+        "stmt_val" => opaque(guarded(|| {
+            let mut last = Ok(());
+            for line in [text.to_string(), format!("{text}="), format!("v={text}"), format!("{text}={text}"), format!("{text}<=")] {
+                let line: &'static str = Box::leak(line.into_boxed_str());
+                last = exmex::line_2_statement_val::<i32, f64>(line).map(|_| ());
+            }
+            last
+        })),
         _ => Obs { outcome: "err", msg: format!("unknown entry {entry}"), vars: vec![], den: None, extra: Map::new() },
     }
 }
